@@ -136,12 +136,12 @@ static size_t valid_gen(long idx, uint8_t *payload, char *human, size_t hn) {
 enum { F_DUP_BOARD_ID, F_DUP_BOARD_UID, F_DUP_POINT_ID, F_DUP_SIGNAL_ID, F_DUP_PERIPH_ID, F_DUP_SEG_ID, F_DUP_REV_ID, F_DUP_TRAIN_ID,
        F_DUP_POINT_NUMBER, F_DUP_SIGNAL_NUMBER, F_DUP_PERIPH_PORT, F_DUP_SEG_ADDR, F_DUP_REV_CV, F_DCC_TRAIN_ACC, F_DCC_ACC_ACC, F_DCC_TRAIN_TRAIN,
        F_DUP_ASPECT_ID, F_DUP_ASPECT_VALUE, F_INITIAL_UNDECLARED, F_NO_ASPECTS, F_CAL_8, F_CAL_10, F_CAL_127, F_STEPS, F_BIT_32, F_BIT_DUP, F_TRACK_BOARD_MISSING,
-       F_DUP_FEATURE, F_DUP_DCC_POINT_ID, F_N };
+       F_DUP_FEATURE, F_DUP_DCC_POINT_ID, F_LONG_LITERAL, F_N };
 static const char *FNAME[F_N] = {"duplicate board id", "duplicate board unique-id", "duplicate point id", "duplicate signal id", "duplicate peripheral id", "duplicate segment id",
 	"duplicate reverser id", "duplicate train id", "duplicate point number on a board", "duplicate signal number on a board", "duplicate peripheral port on a board", "duplicate segment address on a board",
 	"duplicate reverser CV on a board", "DCC address shared by a train and an accessory", "DCC address shared by two accessories", "DCC address shared by two trains", "duplicate aspect id", "duplicate aspect value",
 	"initial value names no declared aspect", "accessory without aspects", "calibration not a list of 9 values (8 values, a scalar, nothing)", "calibration with 10 values", "calibration value 127", "speed steps not 14/28/126", "function bit 32",
-	"duplicated function bit", "track-file board missing from the board file", "duplicate feature number on a board", "DCC point id equal to a board point id"};
+	"duplicated function bit", "track-file board missing from the board file", "duplicate feature number on a board", "DCC point id equal to a board point id", "over-long hexadecimal literal (unique id / DCC address / port with surplus digits)"};
 #define POS 8
 /* returns 1 if the fault could be applied at position pos */
 static int apply_fault(cm_model_t *m, int f, int pos) {
@@ -189,6 +189,7 @@ static int apply_fault(cm_model_t *m, int f, int pos) {
 	case F_BIT_32: if (pos == 0) { m->t[0].per[2].bit = 32; return 1; } if (pos == 1) { m->t[1].per[0].bit = 255; return 1; } return 0;
 	case F_BIT_DUP: if (pos == 0) { m->t[0].per[1].bit = m->t[0].per[0].bit; return 1; } return 0;
 	case F_TRACK_BOARD_MISSING: if (pos == 0) { snprintf(B1->id, 24, "ghost"); return 2; } return 0;   /* 2: rename in the track file only */
+	case F_LONG_LITERAL: return pos < 5 ? 3 : 0;      /* 3: done on the emitted text, see invalid_child */
 	case F_DUP_FEATURE: if (pos == 0) { B0->features[1].number = B0->features[0].number; return 1; } return 0;
 	}
 	return 0;
@@ -200,6 +201,12 @@ static void invalid_child(const void *job, size_t n) {
 	int how = apply_fault(&M, f, pos);
 	if (!how) { res_printf("N 1\nO 0 0\n"); res_finish(); }
 	if (how == 2) { static cm_model_t G; cm_std(&G); cm_install(&G); cm_emit(&M); env_set_cfg(G.board_txt, M.track_txt, G.train_txt); }
+	else if (how == 3) {     /* a literal of the documented length followed by surplus characters: the n-th occurrence of the key gets two more digits */
+		static const struct { int file; const char *key; int digits; const char *extra; } LL[5] = { {0, "unique-id: 0x", 14, "00"}, {2, "dcc-address: 0x", 4, "45"}, {1, "dcc-address: 0x", 4, "0f"}, {1, "port: 0x", 4, "0"}, {2, "dcc-address: 0x", 4, "zz"} };
+		cm_install(&M); char *txt[3] = {M.board_txt, M.track_txt, M.train_txt}; char *t = txt[LL[pos].file]; char *k = strstr(t, LL[pos].key);
+		if (!k) { res_printf("N 1\nO 0 0\n"); res_finish(); }
+		k += strlen(LL[pos].key) + (size_t) LL[pos].digits; memmove(k + strlen(LL[pos].extra), k, strlen(k) + 1); memcpy(k, LL[pos].extra, strlen(LL[pos].extra));
+		env_set_cfg(M.board_txt, M.track_txt, M.train_txt); }
 	else { cm_install(&M); if (f == F_CAL_10) { /* emit the tenth value */ } }
 	int rc = hx_start_normal(0); hx_quiesce();
 	if (rc == 0) { char cls[200]; snprintf(cls, sizeof cls, "ambiguous-configuration-accepted fault=%s", FNAME[f]); res_violation(cls, "position %d: start returned 0", pos); }
